@@ -538,6 +538,68 @@ func rulesC02(c *Ctx) {
 				c.Check(ok, impl.Name()+":return#"+itoa(i), impl, r, "error return wraps ErrInvalidParams or ErrInvalidRequest with %%w (toWireError keeps the code of a wrapped *WireError); otherwise the peer sees code 0")
 			}
 		}
+		// (b') … and every implementation refuses JSON null / absent params: a return wrapping ErrInvalidRequest sits behind a
+		// nil test of the decoded value, and the test is passed on the way to every successful return
+		for _, impl := range impls {
+			ig := impl.Graph()
+			var decoded types.Object
+			for _, call := range impl.AllCalls(impl.Body, false) {
+				if fn := impl.Callee(call); fn != nil && fn.Name() == "Unmarshal" && len(call.Args) == 2 {
+					if u, isU := ast.Unparen(call.Args[1]).(*ast.UnaryExpr); isU && u.Op == token.AND {
+						decoded = impl.ObjOf(u.X)
+					}
+				}
+			}
+			if !c.Check(decoded != nil, impl.Name()+":decodes-into-a-local", impl, nil, "the params are decoded into a local the nil test can be about") {
+				continue
+			}
+			guard := -1
+			for _, r := range impl.Returns() {
+				if len(r.Results) != 2 || !impl.WrapsObj(r.Results[1], eIR) {
+					continue
+				}
+				rv := ig.VertexOf(r)
+				if hasAtom(ig.GuardsAt(rv), func(a Atom) bool {
+					return AtomSaysNil(a, true, func(e ast.Expr) bool { return impl.ObjOf(e) == decoded })
+				}) {
+					if cs := ig.guardingConds(rv); len(cs) > 0 {
+						guard = cs[len(cs)-1]
+					}
+				}
+			}
+			if !c.Check(guard >= 0, impl.Name()+":null-params-refused", impl, nil, "nil params (absent or JSON null) are answered with ErrInvalidRequest (-32600) instead of reaching a handler that dereferences them") {
+				continue
+			}
+			for i, r := range impl.Returns() {
+				if len(r.Results) == 2 && isNilIdent(r.Results[1]) {
+					c.Check(ig.Dominates(guard, ig.VertexOf(r)), impl.Name()+":null-test-before-success#"+itoa(i), impl, r, "the nil test is evaluated on every path to this successful return")
+				}
+			}
+		}
+		// (b'') completion/complete: its two required members are tested by the server itself (the params type cannot
+		// express "required"), each with an invalid-params reply
+		cp := c.Fn(pM, "Server", "complete")
+		cpg := cp.Graph()
+		refF, nameF := c.Field(pM, "CompleteParams", "Ref"), c.Field(pM, "CompleteParamsArgument", "Name")
+		seenRef, seenName := false, false
+		for _, r := range cp.Returns() {
+			if len(r.Results) != 2 || !cp.WrapsObj(r.Results[1], eIP) {
+				continue
+			}
+			gs := cpg.GuardsAt(cpg.VertexOf(r))
+			if hasAtom(gs, func(a Atom) bool { return AtomSaysNil(a, true, func(e ast.Expr) bool { return cp.IsField(e, refF) }) }) {
+				seenRef = true
+			}
+			if hasAtom(gs, func(a Atom) bool {
+				x, y, op, ok := cmpOn(a.E, func(e ast.Expr) bool { return cp.IsField(e, nameF) })
+				sv, isS := cp.ConstString(y)
+				return ok && x != nil && op == token.EQL && a.Val && isS && sv == ""
+			}) {
+				seenName = true
+			}
+		}
+		c.Check(seenRef, "complete:missing-ref-is-invalid-params", cp, nil, "a completion request without ref is answered -32602 (the handler would dereference it)")
+		c.Check(seenName, "complete:missing-argument-name-is-invalid-params", cp, nil, "a completion request without argument.name is answered -32602")
 		// (c) checkRequest
 		cr := c.Fn(pM, "", "checkRequest")
 		nerr := 0
@@ -641,6 +703,96 @@ func rulesC02(c *Ctx) {
 			}
 		}
 		c.Pin("updateBatch flush return", flush, 1)
+		// the slot a call's response goes into exists: Read records len(responses) as the call's index and then grows
+		// responses by one before the next call is looked at; updateBatch stores the response at that index
+		slots := 0
+		for _, w := range Writes(rd.Body, false) {
+			m, _, ok := indexOf(w.LHS)
+			if !ok || !rd.IsField(m, unres) {
+				continue
+			}
+			slots++
+			var ce *ast.CallExpr
+			if w.RHS != nil {
+				ce, _ = ast.Unparen(w.RHS).(*ast.CallExpr)
+			}
+			c.Check(ce != nil && rd.BuiltinName(ce) == "len" && rd.IsField(ce.Args[0], respF), "ioConn.Read:index-is-next-slot", rd, w.Stmt, "the index recorded for the call is len(responses)")
+			v := g.VertexOf(w.Stmt)
+			grows := func(u int) bool {
+				as, isAs := g.Node(u).(*ast.AssignStmt)
+				if !isAs || len(as.Lhs) != 1 || len(as.Rhs) != 1 || !rd.IsField(as.Lhs[0], respF) {
+					return false
+				}
+				ac, isAc := ast.Unparen(as.Rhs[0]).(*ast.CallExpr)
+				return isAc && rd.BuiltinName(ac) == "append" && len(ac.Args) == 2 && rd.IsField(ac.Args[0], respF)
+			}
+			okp, path := g.MustPass(v, append(append([]int{}, g.Exits...), v), grows)
+			c.Check(okp, "ioConn.Read:slot-reserved", rd, w.Stmt, "responses grows by one slot before the next call of the batch is indexed (otherwise updateBatch stores out of range) %s", g.PathString(path))
+		}
+		c.Pin("ioConn.Read slot reservations", slots, 1)
+		stores := 0
+		for _, w := range Writes(ub.Body, false) {
+			m, k, ok := indexOf(w.LHS)
+			if !ok || !ub.IsField(m, respF) {
+				continue
+			}
+			stores++
+			idx := ub.ObjOf(k)
+			fromUnres := false
+			if idx != nil {
+				ast.Inspect(ub.Body, func(n ast.Node) bool {
+					if as, isAs := n.(*ast.AssignStmt); isAs && len(as.Rhs) == 1 && len(as.Lhs) >= 1 {
+						if m2, _, ok2 := indexOf(as.Rhs[0]); ok2 && ub.IsField(m2, unres) && ub.ObjOf(as.Lhs[0]) == idx {
+							fromUnres = true
+						}
+					}
+					return true
+				})
+			}
+			c.Check(fromUnres, "updateBatch:slot-from-index", ub, w.Stmt, "the response is stored at the index recorded in unresolved for its id")
+			for _, r := range ub.Returns() {
+				if len(r.Results) == 2 && ub.IsField(r.Results[0], respF) {
+					c.Check(ug.Dominates(ug.VertexOf(w.Stmt), ug.VertexOf(r)), "updateBatch:stored-before-flush", ub, r, "the response is stored in the batch before the flush decision")
+				}
+			}
+		}
+		c.Pin("updateBatch slot stores", stores, 1)
+		// malformed input ends in an error, not in an index panic: Read stops on readBatch's error before touching msgs,
+		// and readBatch never reports success with no message
+		rb := c.Fn(pM, "", "readBatch")
+		rbCalls := rd.CallsIn(rd.Body, rb.Obj, false)
+		c.Pin("ioConn.Read readBatch calls", len(rbCalls), 1)
+		for _, call := range rbCalls {
+			c.Check(rd.failureReturnsError(call), "ioConn.Read:readBatch-failure-returns", rd, call, "a failure of readBatch returns the error before msgs[0] / msgs[1:] are evaluated")
+		}
+		rbg := rb.Graph()
+		okRets := 0
+		for _, r := range rb.Returns() {
+			if len(r.Results) != 3 || !isNilIdent(r.Results[2]) {
+				continue
+			}
+			okRets++
+			guards := rbg.GuardsAt(rbg.VertexOf(r))
+			c.Check(hasAtom(guards, func(a Atom) bool {
+				x, y, op, isCmp := binaryCmp(a.E)
+				if !isCmp {
+					return false
+				}
+				ce, isCe := ast.Unparen(x).(*ast.CallExpr)
+				z, isZ := rb.ConstInt(y)
+				if !isCe || rb.BuiltinName(ce) != "len" || !isZ || z != 0 {
+					return false
+				}
+				return (op == token.EQL && !a.Val) || ((op == token.GTR || op == token.NEQ) && a.Val)
+			}), "readBatch:empty-batch-refused", rb, r, "a batch is reported decoded only behind len(rawBatch) != 0 (guards: %s): Read indexes msgs[0]", atomsString(guards))
+		}
+		c.Pin("readBatch success returns", okRets, 1)
+		dm := c.FnObj(pJ, "", "DecodeMessage")
+		for _, call := range rb.CallsIn(rb.Body, dm, false) {
+			if _, inLoop := rb.Enclosing(call, func(n ast.Node) bool { _, ok := n.(*ast.RangeStmt); return ok }).(*ast.RangeStmt); inLoop {
+				c.Check(rb.failureReturnsError(call), "readBatch:element-failure-returns", rb, call, "an undecodable batch element fails the whole batch (a nil message is never queued)")
+			}
+		}
 	})
 
 	c.Rule("R-C02-11", "a peer that has not negotiated a version yet is not cut off for batching: on the newline-delimited transports the version that gates batches starts as 2025-03-26 (an empty version is replaced by that constant before it is normalised), so a pre-initialize batch is read and answered instead of ending the session", func() {
